@@ -1,5 +1,5 @@
 // C01 / C21 — the content-stream tokenizer on arbitrary bytes (child module of parser/content.rs).
-// @ob id=name_token tier=quick unwind=6 stubs=fmt,vec timeout=1200 mem=20 bound="ContentTokenizer::next_token on '/' followed by up to 3 arbitrary bytes (name scanning incl. '#' escapes at a truncated tail): value or error, position never past the input"
+// @ob id=name_token tier=quick unwind=6 stubs=fmt,vec timeout=1200 mem=28 bound="ContentTokenizer::next_token on '/' followed by up to 3 arbitrary bytes (name scanning incl. '#' escapes at a truncated tail): value or error, position never past the input"
 fn name_token<const KF: usize>() {
     let b: [u8; 3] = kani::any();
     let buf = [b'/', b[0], b[1], b[2]];
@@ -16,7 +16,7 @@ fn name_token<const KF: usize>() {
 
 // The string scanners, called directly (next_token dispatches to them on '(' and '<'): arbitrary
 // bytes incl. truncated escapes, unbalanced parentheses, odd hex digits.
-// @ob id=string_scanners tier=quick unwind=8 stubs=fmt,vec timeout=1500 mem=20 bound="read_literal_string on '(' + up to 4 arbitrary bytes and read_hex_string on '<' + up to 4 arbitrary bytes: value or error, position never past the input, output no longer than the input"
+// @ob id=string_scanners tier=quick unwind=8 stubs=fmt,vec timeout=1500 mem=24 bound="read_literal_string on '(' + up to 4 arbitrary bytes and read_hex_string on '<' + up to 4 arbitrary bytes: value or error, position never past the input, output no longer than the input"
 fn string_scanners<const KF: usize>() {
     let b: [u8; 4] = kani::any();
     let hex: bool = kani::any();
